@@ -43,24 +43,39 @@ def run_units(units, tier):
     # unplaceable ghost text dropped: same contract, same real text, fewer hints
     for u in units:
         m = res[(u, 'main')]
-        if m.status == 'undecided' and m.gen is not None and m.gen.get('compile_error_fns'):
-            # a spliced hint no longer type-checks against the rewritten function: drop that function's hints
-            r2 = verus.run_unit(u, None, None, 30, 4, True, tuple(m.gen['compile_error_fns']))
-            if r2.gen is not None:
-                r2.lenient = True
-                r2.strict_reason = m.reason[:300]
-                res[(u, 'main')] = r2
+        if m.status != 'undecided':
             continue
-        if m.status == 'undecided' and m.reason.startswith('lost anchor'):
-            r2 = verus.run_unit(u, None, None, 30, 4, True)
-            if r2.status == 'undecided' and r2.gen is not None and 'compile error' in r2.reason:
-                r3 = verus.run_unit(u, None, None, 30, 4, 'nohints')
-                if r3.gen is not None:
-                    r2 = r3
-            if r2.gen is not None:
-                r2.lenient = True
-                r2.strict_reason = m.reason
-                res[(u, 'main')] = r2
+        first_reason = m.reason
+        lenient, drop, extra = False, (), ()
+        cur = m
+        for _attempt in range(4):
+            if cur.status != 'undecided':
+                break
+            if cur.gen is None:
+                if cur.reason.startswith('lost anchor') and lenient is False:
+                    lenient = True
+                elif cur.reason.startswith('lost anchor') and lenient is True:
+                    lenient = 'nohints'
+                else:
+                    break
+            elif cur.gen.get('missing_fns') and not set(cur.gen['missing_fns']) <= set(extra):
+                # the extracted code calls a helper the template does not name: cut it out of the same file and verify it too
+                extra = tuple(sorted(set(extra) | set(cur.gen['missing_fns'])))
+            elif cur.gen.get('compile_error_fns') and not set(cur.gen['compile_error_fns']) <= set(drop):
+                # a spliced hint no longer type-checks against the rewritten function: drop that function's hints
+                drop = tuple(sorted(set(drop) | set(cur.gen['compile_error_fns'])))
+                lenient = lenient or True
+            elif 'compile error' in cur.reason and lenient != 'nohints':
+                lenient = 'nohints'
+            else:
+                break
+            cur = verus.run_unit(u, None, None, 30, 4, lenient, drop, extra)
+        if cur is not m and cur.gen is not None:
+            cur.lenient = bool(lenient)
+            cur.strict_reason = first_reason[:300]
+            if extra:
+                cur.auto_extracted = list(extra)
+            res[(u, 'main')] = cur
     return res
 
 
